@@ -194,6 +194,9 @@ func runFunction(vc *VC, u *Universe, pi *PkgInfo, fc *FuncContract, fn *ssa.Fun
 			return splits
 		}
 		for k, en := range fc.Ensures {
+			if en.Assumed {
+				continue
+			}
 			g := post.evalBool(en.Expr)
 			o := vc.oblige("post", Implies(fin.Reach, g), x.posOf(fn, fn.Pos()), fmt.Sprintf("postcondition %d: %s", k+1, en.Src))
 			o.Clause = en.Src
